@@ -20,6 +20,7 @@ func init() { Registry["C08"] = C08_Run }
 
 type c08Dest struct {
 	A  int
+	C2 int
 	S  string
 	L  []int
 	N  Inner
@@ -35,6 +36,7 @@ func C08_Covers() []string { return []string{"ran"} }
 func c08Schema() *z.StructSchema {
 	return z.Struct(z.Schema{
 		"a":  z.Int().GT(10).Catch(11),
+		"c2": z.Int().TestFunc(func(val any, ctx z.Ctx) bool { return false }, z.IssueCode("gt"), z.Params(map[string]any{"gt": 1, "lo": 2, "hi": 3})),
 		"s":  z.String().Min(2).Required().Default("dd"),
 		"l":  z.Slice(z.Int().LT(100)).Min(1).Default([]int{1, 2}),
 		"n":  z.Struct(z.Schema{"x": z.Int().Required(), "y": z.String().Not().Contains("q")}),
@@ -180,7 +182,7 @@ func C08_Run(job string) {
 
 func c08Obs(errs z.ZogIssueMap, d *c08Dest) string {
 	s := ""
-	for _, k := range []string{"$root", "a", "s", "l", "l[0]", "l[1]", "n.x", "n.y", "pN", "pN.x", "c"} {
+	for _, k := range []string{"$root", "a", "c2", "s", "l", "l[0]", "l[1]", "n.x", "n.y", "pN", "pN.x", "c"} {
 		s += k + ":"
 		for _, e := range errs[k] {
 			s += e.Code + "|" + e.Message + ","
